@@ -225,4 +225,49 @@ theorem parseBoolL_some {l : List Char} {b : Bool} (h : parseBoolL l = some b) :
     · exact Or.inr h2
     · rw [if_neg h1, if_neg h2] at h; cases h
 
+/-! ## parameters, rendering, defaults (used by `Props.lean`) -/
+
+theorem all_congr_mem {α : Type} (l : List α) (f g : α → Bool) (h : ∀ a ∈ l, f a = g a) : l.all f = l.all g := by
+  induction l with
+  | nil => rfl
+  | cons a r ih =>
+    simp only [List.all_cons]
+    rw [h a List.mem_cons_self, ih (fun b hb => h b (List.mem_cons_of_mem _ hb))]
+
+/-- `content` never reads the include flags. -/
+theorem content_congr (p q : Params) (w : World) (hd : p.defaults = q.defaults)
+    (hp : p.projectPath = q.projectPath) (hl : p.localPath = q.localPath) (hc : p.cli = q.cli) :
+    content p w = content q w := by
+  funext s; cases s <;> simp [content, hd, hp, hl, hc]
+
+theorem renderInt_spec (i : Int) :
+    (∃ n : Nat, i = n ∧ renderInt i = renderNat n) ∨ (∃ n : Nat, i = -((n : Int) + 1) ∧ renderInt i = '-' :: renderNat (n + 1)) := by
+  cases i with
+  | ofNat n => exact Or.inl ⟨n, rfl, rfl⟩
+  | negSucc n => exact Or.inr ⟨n, by omega, rfl⟩
+
+theorem parseBoolL_renderNat (n : Nat) : parseBoolL (renderNat n) = none := by
+  cases hb : parseBoolL (renderNat n) with
+  | none => rfl
+  | some b =>
+    have hp := parseNat_renderNat n
+    rcases parseBoolL_some hb with h | h
+    · rw [h] at hp; exact absurd (parseNat_head_digit hp) (by decide)
+    · rw [h] at hp; exact absurd (parseNat_head_digit hp) (by decide)
+
+theorem lastVal_isSome_of_mem (kvs : List (Key × Val)) (k : Key) (h : k ∈ kvs.map (·.1)) :
+    (lastVal kvs k).isSome = true := by
+  induction kvs with
+  | nil => simp at h
+  | cons kv rest ih =>
+    obtain ⟨k', v⟩ := kv
+    simp only [lastVal]
+    cases hl : lastVal rest k with
+    | some w => rfl
+    | none =>
+      simp only [List.map_cons, List.mem_cons] at h
+      rcases h with h | h
+      · simp [h]
+      · have := ih h; rw [hl] at this; cases this
+
 end Cfg
